@@ -43,6 +43,8 @@ var userBlocks = []block{
 	{"tool_result-str", `{"type":"tool_result","tool_use_id":"call_1","content":"RES-1"}`},
 	{"tool_result-blocks", `{"type":"tool_result","tool_use_id":"call_2","content":[{"type":"text","text":"RES-2"}]}`},
 	{"tool_result-none", `{"type":"tool_result","tool_use_id":"call_3"}`},
+	// the same call id answered differently (ids are issued by backends and repeat across conversations)
+	{"tool_result-str-other", `{"type":"tool_result","tool_use_id":"call_1","content":"RES-1-OTHER"}`},
 	{"image", `{"type":"image","source":{"type":"base64","media_type":"image/png","data":"aGk="}}`},
 }
 var asstBlocks = []block{
@@ -51,6 +53,9 @@ var asstBlocks = []block{
 	{"tool_use-empty", `{"type":"tool_use","id":"call_1","name":"f1","input":{}}`},
 	{"tool_use-a1", `{"type":"tool_use","id":"call_2","name":"f2","input":{"a":1}}`},
 	{"tool_use-big", `{"type":"tool_use","id":"call_3","name":"f3","input":` + bigArgs + `}`},
+	// ids seen before with another input / another function (ids are issued by backends and repeat across conversations)
+	{"tool_use-a1-other-input", `{"type":"tool_use","id":"call_2","name":"f2","input":{"a":2,"b":[1]}}`},
+	{"tool_use-empty-other-name", `{"type":"tool_use","id":"call_1","name":"g1","input":{"z":"y"}}`},
 }
 
 type content struct {
@@ -326,6 +331,15 @@ func judgeStructure(raw string, shape string) {
 		return
 	}
 	res.SetAdd("distinct_nontrivial", itemsStr(exp))
+	// one translator serves every request of the process: what it produces for this request must not depend on
+	// the requests it has seen before (a fresh instance is the reference)
+	r2, _ := http.NewRequest("POST", "http://x/olla/anthropic/v1/messages", strings.NewReader(raw))
+	if fout, ferr := freshTranslator().TransformRequest(context.Background(), r2); ferr == nil {
+		if fact, _ := actual(fout.OpenAIRequest); itemsStr(fact) != itemsStr(act) {
+			violate("translation-depends-on-earlier-requests", map[string]any{"slice": "structure"}, fmt.Sprintf("the long-lived translator produced %s\na fresh translator produces    %s", itemsStr(act), itemsStr(fact)), raw)
+			return
+		}
+	}
 	if len(exp) != len(act) {
 		violate("items-differ", map[string]any{"slice": "structure", "what": "count"}, fmt.Sprintf("expected items %s\nproduced items %s", itemsStr(exp), itemsStr(act)), raw)
 		return
@@ -695,6 +709,10 @@ func endToEnd() {
 			}
 		}
 	}
+}
+
+func freshTranslator() *anthropic.Translator {
+	return anthropic.NewTranslator(hutil.QuietLogger(), config.AnthropicTranslatorConfig{Enabled: true, MaxMessageSize: 10 << 20})
 }
 
 func main() {
